@@ -1,6 +1,8 @@
 import Restli.Model.QueryParams
 import Restli.Model.Envelope
 import Restli.Proofs.RoundTrip4
+import Restli.Proofs.Fuel
+import Restli.Proofs.NoPanic
 /-! Query parameters round trip: what `BuildQueryParams` writes for a record of parameters,
 `ParseQueryParams` + the generated `DecodeQueryParams` read back. -/
 namespace Restli.Codec
@@ -364,5 +366,67 @@ theorem query_roundtrip (env : Env) (esc : Bytes → Bytes) (E : EscLaws esc tru
         exact List.mem_map.2 ⟨t, ht, rfl⟩
       simp only [finishRecord, finishPanics, missingAfter, hrem, hfill]
       simp [g]
+
+/-! ## totality: any query string -/
+
+theorem qpLoop_total (env : Env) (fields : List Field) :
+    ∀ (ps : List (Bytes × Bytes)) acc seen miss,
+      qpLoop env fields ps acc seen miss ≠ .panic ∧ qpLoop env fields ps acc seen miss ≠ .fuel
+  | [], acc, seen, miss => by simp [qpLoop]
+  | (k, raw) :: rest, acc, seen, miss => by
+    simp only [qpLoop]
+    split
+    · next f _ =>
+      have hp := (noPanicAt (qpCfg env) (3 * raw.length + 8)).1 [.key k] f.ty { rest := raw, start := true }
+      have hf := ((fuelOK (qpCfg env) (3 * raw.length + 8)).1 [.key k] f.ty { rest := raw, start := true }
+        (by simp only; omega)).1
+      split
+      · exact qpLoop_total env fields rest _ _ _
+      · simp
+      · next h => exact absurd h hp
+      · next h => exact absurd h hf
+      · simp
+    · have hs := skip_ne_panic { rest := raw, start := true }
+      split
+      · exact qpLoop_total env fields rest _ _ _
+      · simp
+      · next h => exact absurd h hs
+      · next h =>
+        exfalso
+        unfold skip at h
+        split at h
+        · cases h
+        · split at h <;> cases h
+      · simp
+
+/-- the query-parameters reader model returns a value or an error on every query string: no panic
+branch, never out of fuel -/
+theorem unmarshalQuery_total (env : Env) (n : TName) (q : Bytes) :
+    unmarshalQuery env n q ≠ .panic ∧ unmarshalQuery env n q ≠ .fuel := by
+  unfold unmarshalQuery
+  split
+  · simp
+  · next params _ =>
+    unfold decodeQueryParams
+    split
+    · next own _ =>
+      have ht := qpLoop_total env (allFields env (includeFuel env) n) params [] [] []
+      simp only
+      cases hq : qpLoop env (allFields env (includeFuel env) n) params [] [] [] with
+      | ok r s =>
+        obtain ⟨acc, seen, miss⟩ := r
+        simp only
+        have hfr := finishRecord_ne_panic env { excl := .empty, ignore := 0 } [] true
+          (allFields env (includeFuel env) n) own acc seen miss
+        cases hf : finishRecord env { excl := .empty, ignore := 0 } [] true
+          (allFields env (includeFuel env) n) own acc seen miss with
+        | panic => exact absurd hf hfr
+        | missingErr ps v => simp
+        | ok v m => simp
+      | err e => simp
+      | panic => exact absurd hq ht.1
+      | fuel => exact absurd hq ht.2
+      | unmodelled => simp
+    · simp
 
 end Restli.Codec
